@@ -43,6 +43,16 @@ def gen(rng, kind):
         if cfg["obs"][k] is not None and cfg["oslice"][k]:
             w = cfg["oslice"][k][1] - cfg["oslice"][k][0]
             cfg["obs"][k]["vals"] = [[float(rng.randint(-2, 2)) for _ in range(w)] for _ in range(n)]
+    cfg["statio_unknowns"] = []
+    if kind == "nonstatio" and nu >= 2 and rng.random() < 0.5:
+        # a mixed system: some unknowns (the first one among them) are stationary fields u_k(x); they have no initial condition
+        cfg["statio_unknowns"] = [ukeys[0]] + [k for k in ukeys[1:-1] if rng.random() < 0.3]
+        for k in cfg["statio_unknowns"]:
+            cfg["upolys"][k] = {(0,) + es[1:]: c for es, c in cfg["upolys"][k].items()} or {(0, 0): 1}      # no dependence on t
+            if cfg["upolys2"][k]:
+                cfg["upolys2"][k] = {(0,) + es[1:]: c for es, c in cfg["upolys2"][k].items()} or {(0, 0): 2}
+            if cfg["obs"][k] is not None:
+                cfg["obs"][k]["inputs"] = [r[1:] for r in cfg["obs"][k]["inputs"]]
     if kind == "ode":
         cfg["ic"] = {k: (dy(rng), float(rng.randint(-2, 2))) for k in ukeys}
     else:
@@ -59,7 +69,10 @@ def build(cfg):
     kind = cfg["kind"]
     eq_type = {"ode": "ODE", "statio": "statio_PDE", "nonstatio": "nonstatio_PDE"}[kind]
     up2 = cfg.get("upolys2") or {}
-    us = {k: mk([cfg["upolys"][k]] + ([up2[k]] if up2.get(k) else []), eq_type) for k in cfg["ukeys"]}
+    SU = set(cfg.get("statio_unknowns") or [])
+    drop_t = lambda p: {es[1:]: c for es, c in p.items()}          # the network of a stationary unknown takes x only
+    us = {k: (mk([drop_t(cfg["upolys"][k])] + ([drop_t(up2[k])] if up2.get(k) else []), "statio_PDE") if k in SU
+              else mk([cfg["upolys"][k]] + ([up2[k]] if up2.get(k) else []), eq_type)) for k in cfg["ukeys"]}
     osl = {k: (jnp.s_[v[0]:v[1]] if v else jnp.s_[...]) for k, v in (cfg.get("oslice") or {k: None for k in cfg["ukeys"]}).items()}
     PD = ParamsDict(nn_params={k: u.init_params() for k, u in us.items()}, eq_params={"junk": jnp.array(1.0)})
     base = {"ode": jinns.loss.ODE, "statio": jinns.loss.PDEStatio, "nonstatio": jinns.loss.PDENonStatio}[kind]
@@ -77,7 +90,8 @@ def build(cfg):
         else:
             class E(base):
                 def equation(self, t, x, u_dict, params_dict):
-                    return sum(c * u_dict[k](t, x, params_dict.extract_params(k))[0:1] for k, c in coef.items()) + poly_jax(q, jnp.concatenate([t, x]))
+                    return sum(c * (u_dict[k](x, params_dict.extract_params(k)) if k in SU else u_dict[k](t, x, params_dict.extract_params(k)))[0:1]
+                               for k, c in coef.items()) + poly_jax(q, jnp.concatenate([t, x]))
         return E()
     dl = {e: mkeq(s) for e, s in cfg["eqs"].items()}
 
@@ -101,15 +115,16 @@ def build(cfg):
         kw = dict(norm_samples_dict={k: jnp.array(v) for k, v in cfg["norm"].items()}, norm_int_length_dict={k: 2.0 for k in us}, obs_slice_dict=osl)
         skw = {k: dict(norm_samples=jnp.array(cfg["norm"][k]), norm_int_length=2.0, obs_slice=osl[k]) for k in us}
         if kind == "nonstatio":
-            icf = {k: (lambda p: (lambda x: poly_jax(p, x)))(cfg["icp"][k]) for k in us}
+            icf = {k: (None if k in SU else (lambda p: (lambda x: poly_jax(p, x)))(cfg["icp"][k])) for k in us}
             kw["initial_condition_fun_dict"] = icf
             for k in us:
-                skw[k]["initial_condition_fun"] = icf[k]
+                if k not in SU:
+                    skw[k]["initial_condition_fun"] = icf[k]
         L = jinns.loss.SystemLossPDE(u_dict=us, dynamic_loss_dict=dl, loss_weights=lw, params_dict=PD, **kw)
         pts = jnp.array(cfg["pts"])
         batch = PDEStatioBatch(inside_batch=pts, border_batch=None, obs_batch_dict=obs) if kind == "statio" else PDENonStatioBatch(times_x_inside_batch=pts, times_x_border_batch=None, obs_batch_dict=obs)
         cls = jinns.loss.LossPDEStatio if kind == "statio" else jinns.loss.LossPDENonStatio
-        singles = {k: cls(u=us[k], dynamic_loss=None, params=PD.extract_params(k), **skw[k]) for k in us}
+        singles = {k: (jinns.loss.LossPDEStatio if k in SU else cls)(u=us[k], dynamic_loss=None, params=PD.extract_params(k), **skw[k]) for k in us}
     return us, PD, L, batch, singles, obs
 
 
@@ -191,7 +206,7 @@ def generate(tier, seed, casedir, variant):
             samples.append(dict(jsonable(cfg), returned=terms))
     write_cases(casedir, "C13", "R_C13", variant, cases, chunk=100)
     return dict(meta=meta, oracle_violations=viol, evaluations=len(cases), distinct_nontrivial=len(nontrivial), samples=samples, distribution=dist,
-                rule="random systems (ODE / stationary / non-stationary) with 1..3 equations and 1..3 unknowns (counts independent, key names inserted in any order), residuals linear in the unknowns plus a polynomial that is not symmetric in (t, x), scalar / per-key dictionary / missing weights for every field, initial conditions, normalisation samples and observations per unknown (some unknowns without observations; some with a second output channel and an observation slice of their own); non-trivial = non-zero dynamic term",
+                rule="random systems (ODE / stationary / non-stationary) with 1..3 equations and 1..3 unknowns (counts independent, key names inserted in any order), residuals linear in the unknowns plus a polynomial that is not symmetric in (t, x), scalar / per-key dictionary / missing weights for every field, initial conditions, normalisation samples and observations per unknown (some unknowns without observations; some with a second output channel and an observation slice of their own; half of the non-stationary systems with two or more unknowns are mixed: their first unknown is a stationary field); non-trivial = non-zero dynamic term",
                 oracle_checks=len(cases))
 
 
